@@ -150,6 +150,54 @@ func hasBreak(s ast.Stmt) bool {
 	return false
 }
 
+// hasContinue reports if s contains unlabelled continue referring to the enclosing loop
+func hasContinue(s ast.Stmt) bool {
+	switch s := s.(type) {
+	case *ast.LabeledStmt:
+		return hasContinue(s.Stmt)
+
+	case *ast.BranchStmt:
+		return s.Tok == token.CONTINUE && s.Label == nil
+
+	case *ast.BlockStmt:
+		return hasContinueList(s.List)
+
+	case *ast.IfStmt:
+		if hasContinue(s.Body) ||
+			s.Else != nil && hasContinue(s.Else) {
+			return true
+		}
+
+	case *ast.SwitchStmt:
+		return hasContinue(s.Body)
+
+	case *ast.TypeSwitchStmt:
+		return hasContinue(s.Body)
+
+	case *ast.SelectStmt:
+		return hasContinue(s.Body)
+
+	case *ast.CaseClause:
+		return hasContinueList(s.Body)
+
+	case *ast.CommClause:
+		return hasContinueList(s.Body)
+
+		// *ast.ForStmt, *ast.RangeStmt: continue refers to the inner loop
+	}
+
+	return false
+}
+
+func hasContinueList(list []ast.Stmt) bool {
+	for _, s := range list {
+		if hasContinue(s) {
+			return true
+		}
+	}
+	return false
+}
+
 func hasBreakList(list []ast.Stmt) bool {
 	for _, s := range list {
 		if hasBreak(s) {
